@@ -409,6 +409,16 @@ mod verif_kani_slicer {
         run_build(node(0, vec![node(1, vec![leaf(2)])]), rx, mk(0, 0xff, vec![mk(1, rx[1], vec![mk(2, rx[2], vec![])])]));
     }
 
+    // vacuity guard (must FAIL): a remainder trie that also drops the elder sibling's tokens is NOT what from_topo_node builds
+    #[kani::proof]
+    #[kani::unwind(34)]
+    fn mustfail_slicer_build_wrong_remainder() {
+        let rx = any_rx(&[]);
+        let mut expect = mk(0, 0xff, vec![mk(1, rx[1], vec![]), mk(2, rx[2], vec![])]);
+        expect.trie_without_child[1].toks = 0xff & !(rx[1] | rx[2]);
+        run_build(node(0, vec![leaf(1), leaf(2)]), rx, expect);
+    }
+
     // vacuity guard (must FAIL): without the assumed soundness of check_subsume the sliced mask can be wrong
     #[kani::proof]
     #[kani::unwind(10)]
